@@ -1814,6 +1814,16 @@ fn replay(cx: &mut Cx, input: &str)
 {
 	if let Some(e) = input.strip_prefix("U ") {check_unwritable(cx, e); return;}
 	if input.starts_with("H ") {evaluate_history(cx); return;}
+	if let Some(rest) = input.strip_prefix("W ")
+	{
+		let w: Vec<&str> = rest.split(' ').collect();
+		match (w.first().and_then(|x| x.parse::<usize>().ok()), w.get(1).and_then(|x| x.parse::<i64>().ok()))
+		{
+			(Some(t), Some(v)) => check_e2e_statement(cx, t, v),
+			_ => cx.report.oracle_fail(input.to_owned(), "unrecognised replay input"),
+		}
+		return;
+	}
 	if let Some(stmt) = input.strip_prefix("X ")
 	{
 		// statement text: `<.name | name> <expr>;`
@@ -2114,6 +2124,99 @@ must emit the little-endian value (or a diagnostic when the value is an error); 
 	run_table_stream(cx);
 }
 
+// ---------------------------------------------------------------------------------------------------------
+// end-to-end stream over STATEMENT kinds (`W <template index> <value>`): every instruction mnemonic that takes a value (2- and 4-byte
+// encodings, PC-relative ones) and the data directives, with a WITNESS statement directly behind; the constant is defined above, below,
+// declared and defined below, imported from the includer (defined above / below the include) and imported at include depth 2 from a
+// middle file that defines it above / below its own include. Every order gives the bytes of the first.
+
+const E2E_TEMPLATES: [(&str, i64, i64, i64); 22] = [
+	// (statement with {e}, lowest value, highest value, step)
+	(".du32 {e};", 0, 0xFFFF, 1), (".du16 {e};", 0, 0xFFFF, 1), (".du8 {e};", 0, 255, 1), (".du32 ({e} + K) * 2 - K;", 0, 0xFFFF, 1),
+	("MOVS R1, {e};", 0, 255, 1), ("ADDS R2, R2, {e};", 0, 255, 1), ("SUBS R3, R3, {e};", 0, 255, 1), ("CMP R4, {e};", 0, 255, 1), ("SVC {e};", 0, 255, 1),
+	("BKPT {e};", 0, 255, 1), ("UDF.N {e};", 0, 255, 1), ("UDF.W {e};", 0, 65535, 1), ("LSLS R0, R1, {e};", 1, 31, 1), ("LDR R0, [R1 + {e}];", 0, 124, 4),
+	("STRB R0, [R1 + {e}];", 0, 31, 1), ("STRH R0, [{e} + R1];", 0, 62, 2), ("ADD SP, SP, {e};", 0, 508, 4),
+	// PC-relative: the statement stands at 0x100
+	("B {e};", 0, 0x104 + 2046, 2), ("BNE {e};", 0x104 - 256, 0x104 + 254, 2), ("BL {e};", 0x104 - 0x100, 0x104 + 0x40000, 2), ("ADR R0, {e};", 0x104, 0x104 + 1020, 4), ("LDR R5, {e};", 0x104, 0x104 + 1020, 4),
+];
+
+fn check_e2e_statement(cx: &mut Cx, t: usize, v: i64)
+{
+	let Some((tpl, ..)) = E2E_TEMPLATES.get(t) else {cx.report.oracle_fail(format!("W {t} {v}"), "unrecognised replay input"); return;};
+	let input = format!("W {t} {v}");
+	let k = 3 + v.rem_euclid(5);
+	let stmt = format!("{}\n.du16 0xA55A;\n", tpl.replace("{e}", &format!("((X + {k}) - {k})")));
+	let kdef = if tpl.contains('K') {"K: .const K2, 1;\n".replace("K: .const K2, 1;", ".const K, 5;")} else {String::new()};
+	let def = format!(".const X, {v};\n");
+	let dir = cx.work.join("e2e-stmt");
+	// (name, files: main first, must assemble when the first order does)
+	let orders: Vec<(&str, Vec<(&str, String)>, bool)> = vec![
+		("defined above", vec![("main.asm", format!(".addr 0x100;\n{kdef}{def}{stmt}"))], true),
+		("defined below", vec![("main.asm", format!(".addr 0x100;\n{kdef}{stmt}{def}"))], true),
+		("declared global, defined below", vec![("main.asm", format!(".global X;\n.addr 0x100;\n{kdef}{stmt}{def}"))], true),
+		("imported, defined above the include", vec![("main.asm", format!(".addr 0x100;\n{def}.global X;\n.include \"leaf.asm\";\n")), ("leaf.asm", format!(".import X;\n{kdef}{stmt}"))], true),
+		("imported, defined below the include", vec![("main.asm", format!(".addr 0x100;\n.global X;\n.include \"leaf.asm\";\n{def}")), ("leaf.asm", format!(".import X;\n{kdef}{stmt}"))], true),
+		("depth 2, the middle file defines it above its include", vec![("main.asm", ".addr 0x100;\n.include \"mid.asm\";\n".to_owned()), ("mid.asm", format!("{def}.global X;\n.include \"leaf.asm\";\n")), ("leaf.asm", format!(".import X;\n{kdef}{stmt}"))], true),
+		("depth 2, the middle file defines it below its include", vec![("main.asm", ".addr 0x100;\n.include \"mid.asm\";\n".to_owned()), ("mid.asm", format!(".global X;\n.include \"leaf.asm\";\n{def}")), ("leaf.asm", format!(".import X;\n{kdef}{stmt}"))], true),
+		("depth 2, defined below as a constant behind other statements of the middle file", vec![("main.asm", ".addr 0x100;\n.include \"mid.asm\";\nNOP;\n".to_owned()), ("mid.asm", format!(".global X;\n.include \"leaf.asm\";\n.du8 7;\n{def}.du8 X & 0xFF;\n")), ("leaf.asm", format!(".import X;\n{kdef}{stmt}"))], true),
+	];
+	let mut first: Option<Vec<u8>> = None;
+	for (oname, files, must) in &orders
+	{
+		let _ = std::fs::remove_dir_all(&dir);
+		std::fs::create_dir_all(&dir).unwrap();
+		for (n, t) in files {std::fs::write(dir.join(n), t).unwrap();}
+		let path = dir.join("main.asm");
+		let main = files[0].1.clone();
+		let r = guarded(||
+		{
+			let directives = DirectiveList::generate();
+			let mut ctx = Context::new(&Arm6M, &directives);
+			drop(ctx.assemble(main.as_bytes(), path.clone()));
+			if ctx.close_segment().is_err() || !ctx.finalize()
+			{
+				return Err(ctx.get_errors().iter().take(3).map(|e| format!("{}:{}:{}", e.name.rsplit('/').next().unwrap_or(""), e.line, crate::errkind::diag_kind(&e.value))).collect::<Vec<_>>().join("; "));
+			}
+			let mut out = Vec::new();
+			for (range, data) in ctx.output().iter() {if range.get_first() == 0x100 {out.extend_from_slice(data);}}
+			Ok(out)
+		});
+		cx.report.cases(1);
+		match (r, &first)
+		{
+			(Err(p), _) => cx.report.oracle_fail(input.clone(), format!("{oname}: panic: {p}")),
+			(Ok(Err(why)), None) => {cx.report.oracle_fail(input.clone(), format!("`{stmt}` with X = {v} defined above is refused: {why}")); return;},
+			(Ok(Ok(b)), None) =>
+			{
+				// the witness stands directly behind the statement
+				if b.len() < 3 || b[b.len() - 2..] != [0x5A, 0xA5] {cx.report.oracle_fail(input.clone(), format!("{oname}: the witness `.du16 0xA55A` is not behind the statement: {}", hex(&b)));}
+				first = Some(b);
+			},
+			(Ok(Err(why)), Some(_)) => {cx.report.hit(&format!("e2e statement, {oname}: diagnosed")); if *must {cx.report.oracle_fail(input.clone(), format!("{oname}: `{}` (X = {v}) is refused ({why}) although it assembles with the definition above", stmt.lines().next().unwrap_or("")));}},
+			(Ok(Ok(b)), Some(f)) =>
+			{
+				cx.report.hit(&format!("e2e statement, {oname}: assembles"));
+				// the depth-2 order with other statements of the middle file emits a few more bytes behind: compare the common prefix
+				let cmp = if b.len() > f.len() {&b[..f.len()]} else {&b[..]};
+				if cmp != &f[..] {cx.report.oracle_fail(input.clone(), format!("{oname}: `{}` and its witness (X = {v}) emit {}, with the definition above {}", stmt.lines().next().unwrap_or(""), hex(&b), hex(f)));}
+			},
+		}
+	}
+}
+
+fn e2e_statements(cx: &mut Cx)
+{
+	let per = if cx.thorough() {40} else {4};
+	for (t, (_, lo, hi, step)) in E2E_TEMPLATES.iter().enumerate()
+	{
+		let n = (hi - lo) / step;
+		let mut vals = vec![*lo, *hi, lo + step * (n / 2)];
+		for _ in 0..per {vals.push(lo + step * cx.rng.below(n as u64 + 1) as i64);}
+		for v in vals {check_e2e_statement(cx, t, v);}
+	}
+	cx.report.hit_n("e2e statement kinds", E2E_TEMPLATES.len() as u64);
+}
+
 fn run_c08(cx: &mut Cx)
 {
 	cx.report.rule = "random expression trees (operator-family chains with constants on both sides, +/-/negate sign tracking, division spines, \
@@ -2126,6 +2229,7 @@ declaration assemble to the same bytes whenever they assemble. Statement level: 
 constants and a symbol x (value-preserving wrappers around Rn, Rn +- k, Rn + Rm: * x, / x, << x, | x, ^ x, & x, + x, negated subtractions) assembled with \
 x defined above / below / further below / declared .global and defined below: the orders that assemble give the same bytes, and they agree on acceptance unless the refusing order reports an \
 arithmetic overflow. non-trivial = evaluation changed the tree".to_owned();
+	e2e_statements(cx);
 	// fixed shapes first
 	let fixed: Vec<(T, Binds)> = fixed_cases();
 	for (t, b) in fixed.iter()
